@@ -138,6 +138,17 @@ static void proj(FILE *f, const vrt_rec_t *r)
 	}
 }
 
+/* A signaller preempted between its increment and the wake-up it owes (and a waiter between its decrement and its
+ * kernel wait): the windows in which other signals / timeouts race.  Hold a thread there now and then. */
+static void sem_post_steer(struct dispatch_verif_site_s *s, const volatile void *a, int obj)
+{
+	(void)a; (void)obj;
+	if (!strstr(s->dvs_expr, "dsema_value") || s->dvs_op[0] == 'l') return;
+	if ((!strcmp(s->dvs_func, "dispatch_semaphore_signal") || !strcmp(s->dvs_func, "dispatch_semaphore_wait") ||
+			!strcmp(s->dvs_func, "_dispatch_semaphore_wait_slow")) && (vrt_rand() % 6) == 0)
+		usleep(100 + (unsigned)(vrt_rand() % 900));
+}
+
 int main(int argc, char **argv)
 {
 	const char *out = argc > 1 ? argv[1] : "/dev/null";
@@ -146,6 +157,7 @@ int main(int argc, char **argv)
 	if (argc > 4) g_execs = atoi(argv[4]);
 	if (argc > 5) g_ops = atoi(argv[5]);
 	vrt_init(out, g_seed, perturb);
+	if (perturb > 0) vrt_set_post_steer(sem_post_steer);
 	vrt_set_projector(proj);
 	vrt_add_class("dsema_value", 1);
 	vrt_set_hang_seconds(20);
